@@ -88,7 +88,8 @@ check("C22", "mpisim", "exploration",
       "StochasticEnergyAdapter (W3), full optimize_kl runs incl. output directory on a simulated disk, transitions, "
       "fresh_stochasticity callables and HDF5 operator exports (W4), and runs stopped on N tasks and resumed by a new job on M "
       "tasks (W5) are executed from their first line by N=1..6 thread-ranks behind a simulated communicator, under seeded "
-      "schedules and eager/rendezvous/mixed send semantics, including more ranks than samples and arbitrary ordered partitions "
+      "schedules and eager/rendezvous/mixed send semantics, including more ranks than samples, randomised sampling minimisers, "
+      "communicators given as functions of the iteration, 2-d Fortran-ordered fields and arbitrary ordered partitions "
       "with empty ranks; every named result component on every rank AND the canonical content of every output file (sample and "
       "history pickles, RNG state, marker, minisanity report, HDF5 datasets) must be bit-identical to the comm=None run. "
       "Sampled, not exhaustive.",
@@ -99,7 +100,9 @@ check("C22", "mpisim", "exploration",
       "DESIGN.md 3.2")
 
 check("C23", "mpisim", "exploration",
-      "All 710 ordered partitions of 1..8 summands over 1..4 tasks (empty tasks included) are enumerated; for each, "
+      "All 710 ordered partitions of 1..8 summands over 1..4 tasks (empty tasks included) are enumerated; for each, and for "
+      "each of 14 summand types (symbolic trees, floats, lists, tuples, strings, big ints, ndarrays: contiguous / strided / "
+      "Fortran / 0-d / empty / mixed dtype, Fields incl. 2-d Fortran-ordered, MultiFields), "
       "the real allreduce_sum runs on thread-ranks behind a simulated communicator under seeded schedules and "
       "all-rendezvous / all-eager / mixed send semantics; every rank must return the bit-identical single-process value "
       "(tree equality for symbolic summands), no deadlock, no leftover messages. Sampling of schedules, not proof.",
@@ -110,7 +113,8 @@ check("C23", "mpisim", "exploration",
 
 check("C24", "crashsim", "fault_enumeration",
       "For each sampled base run of the real JAX driver (iterations 2-4, MAP / 1 / 2 / varying samples, all sample modes, "
-      "constants, point estimates, jit on/off, resume=True or a path, callback, five write-buffer sizes) the journal of raw "
+      "constants, point estimates, jit on/off, resume=True or a path, callback, legacy and typed PRNG keys (threefry, rbg), "
+      "nested output directory, Samples object as starting point, five write-buffer sizes) the journal of raw "
       "file-system operations is recorded once; every kill point (before the first op, after every op, torn variants of "
       "every write; thorough: chains of two kills) is reconstructed and the real driver is resumed on it; it must finish "
       "and return (samples, state) bit-identical to the uninterrupted run. Crash points are enumerated exhaustively per "
@@ -123,7 +127,9 @@ check("C24", "crashsim", "fault_enumeration",
 
 check("C25", "crashsim", "fault_enumeration",
       "For each sampled base run of the real classic driver (iterations 2-4, save_strategy all/latest, MAP / sampled / "
-      "switching sample counts, MGVI/geoVI, transitions, constants, point estimates, five write-buffer sizes; thorough: "
+      "switching sample counts, MGVI/geoVI, transitions, fresh_stochasticity callables, constants, point estimates, "
+      "likelihoods whose domain grows at an iteration, sanity checks on/off, five write-buffer sizes, 1-3 simulated MPI "
+      "ranks; thorough: "
       "also 2-3 simulated MPI ranks and chains of two kills) every kill point - before/after every creat, write, close, "
       "unlink, rename, mkdir plus torn writes - is reconstructed from the journal and the real driver is resumed on it; "
       "it must finish with final samples and mean bit-identical to the uninterrupted run.",
